@@ -29,5 +29,10 @@ Definition dispatch (u : Z) (a : sx) : sx :=
   | 20 => u_eliminate a
   | 21 => u_convert a
   | 22 => u_stv a
+  | 23 => u_pav a
+  | 24 => u_spav a
+  | 25 => u_score_voting a
+  | 26 => u_mj a
+  | 27 => u_score_to_simple a
   | _ => bad_input
   end.
